@@ -1,8 +1,11 @@
 package main
 
 import (
+	"bytes"
 	"crypto/sha256"
 	"fmt"
+	"github.com/bluenviron/gohlslib/v2/pkg/codecs"
+	"github.com/bluenviron/mediacommon/v2/pkg/formats/fmp4"
 	"math/rand"
 	"os"
 	"path/filepath"
@@ -12,6 +15,7 @@ import (
 	"sync"
 	"sync/atomic"
 	"time"
+	"verif/internal/clirun"
 
 	"verif/internal/ev"
 	"verif/internal/hx"
@@ -83,6 +87,66 @@ func runC08Case(seed int64, idx int, tier string) *c08Result {
 			time.Sleep(time.Duration(int(uint64(v)>>8)%max) * time.Microsecond)
 		}
 	}
+	// write index of the start of every segment (set by the writer at segment rotations)
+	var rotMu sync.Mutex
+	var rotStarts []int
+	var curWrite atomic.Int64
+	probeInit := func(mapURI, where string) {
+		lead := c.LeadingTrack()
+		ts := &c.Tracks[lead]
+		if (ts.Kind != media.H264 && ts.Kind != media.H265) || len(ts.ParamSets) < 2 {
+			return
+		}
+		rotMu.Lock()
+		n := len(rotStarts)
+		startOfLastComplete := 0
+		if n >= 2 {
+			startOfLastComplete = rotStarts[n-2]
+		}
+		rotMu.Unlock()
+		if n < 2 {
+			return
+		}
+		rq, st := hx.Get(h.M.Handle, mapURI, 5*time.Second)
+		if st != hx.Done || rq.Resp.Status != 200 {
+			return
+		}
+		var init fmp4.Init
+		if err := init.Unmarshal(bytes.NewReader(rq.Resp.Body)); err != nil {
+			fail("snapshot/init-decode", "init requested %s does not decode: %v", where, err)
+			return
+		}
+		inEffect := -1
+		ok := map[int]bool{}
+		now := int(curWrite.Load())
+		for _, sm := range c.Samples(lead) {
+			if sm.ParamIdx < 0 {
+				continue
+			}
+			if sm.WriteIdx <= startOfLastComplete {
+				inEffect = sm.ParamIdx
+			} else if sm.WriteIdx <= now {
+				ok[sm.ParamIdx] = true
+			}
+		}
+		ok[inEffect] = true
+		sub := &media.TrackSpec{Kind: ts.Kind}
+		for i := range ts.ParamSets {
+			if ok[i] {
+				sub.ParamSets = append(sub.ParamSets, ts.ParamSets[i])
+			}
+		}
+		for _, it := range init.Tracks {
+			cd := codecs.FromFMP4(it.Codec)
+			if cd == nil || clirun.KindOf(cd) != ts.Kind {
+				continue
+			}
+			count("window_init_probes")
+			if !codecMatches(sub, cd) {
+				fail("snapshot/init-stale", "init requested %s carries parameters that were replaced before the last listed segment started (write %d); acceptable sets %v", where, startOfLastComplete, keysOf(ok))
+			}
+		}
+	}
 	// forced windows: with the writer (or Close) held exactly between releasing the mutex and the
 	// broadcast, the non-blocking URL kinds are requested and validated right there
 	windowProbe := func(where string) {
@@ -108,12 +172,22 @@ func runC08Case(seed int64, idx int, tier string) *c08Result {
 				fail("snapshot/"+k, "playlist of %s requested %s is not a consistent snapshot: %s", id, where, m)
 			}
 			count("window_probes")
+			// the init segment served in the same window must already match what is listed (C02:
+			// once the first complete segment with changed parameters is listed, the init carries them)
+			if pl.Media != nil && pl.Media.HasMap && pl.Media.MapURI != "" && id == h.LeadingStream() {
+				probeInit(pl.Media.MapURI, where)
+			}
 		}
 	}
 	var probeN atomic.Int32
-	hx.OnKey(key, func(point string, _ any) {
+	hx.OnKey(key, func(point string, arg any) {
 		switch point {
 		case "rotate.unlocked":
+			if a, _ := arg.(string); a == "segments" {
+				rotMu.Lock()
+				rotStarts = append(rotStarts, int(curWrite.Load()))
+				rotMu.Unlock()
+			}
 			phase.Store(phUnlocked)
 			if probeN.Add(1)%3 == 0 {
 				windowProbe("between a rotation's unlock and its broadcast")
@@ -367,6 +441,7 @@ func runC08Case(seed int64, idx int, tier string) *c08Result {
 					fail("panic/writer", "write %d panicked: %v", i, p)
 				}
 			}()
+			curWrite.Store(int64(i))
 			err = h.DoWrite(i)
 		}()
 		writeCount.Add(1)
